@@ -206,6 +206,15 @@ class Session(object):
             return dict(x.cands)[i]
         return x
 
+    def concretize_int(self, x, lo, hi):
+        """Fork over lo..hi until the value of a (symbolic) integer is fixed."""
+        if not isinstance(x, SymInt):
+            return x
+        for v in range(lo, hi + 1):
+            if x == v:
+                return v
+        raise HarnessError("concretize_int: value outside [%d, %d]" % (lo, hi))
+
     def note(self, key, value=1):
         self.notes[key] = value
 
